@@ -73,6 +73,20 @@ Proof.
   intros H. pose proof (unique_partition l H) as P. destruct (np_unique l) as [[nm ix] ln]. split; exact P.
 Qed.
 
+(** group_<kind> as generated (unpacking table + stop-index expression) on a sorted group-label array: a true partition *)
+Lemma group_meta_partition a g l : nth g (labs a) None = Some l -> StronglySorted Z.le (unsome l) -> grouped_ok (group_meta a g) g.
+Proof.
+  intros H S. pose proof (unique_partition (unsome l) S) as P.
+  unfold grouped_ok, group_meta. rewrite H. fold (unsome l). destruct (np_unique (unsome l)) as [[nm ix] ln].
+  cbn [labs m_name m_stix m_spix m_len]. rewrite H.
+  exists nm, ix, (map2 Z.add ix ln), ln. repeat split; try reflexivity; apply P.
+Qed.
+Lemma kernel_group_meta_partition a g l : nth g (labs a) None = Some l -> StronglySorted Z.le (unsome l) ->
+  grouped_ok (k_group_meta k_taxa_unique_unpack k_taxa_spix a g) g /\ grouped_ok (k_group_meta k_vrnt_unique_unpack k_vrnt_spix a g) g.
+Proof.
+  intros H S. split; [rewrite <- k_taxa_group_meta_model|rewrite <- k_vrnt_group_meta_model]; eapply group_meta_partition; eauto.
+Qed.
+
 (** * is_grouped_<kind> *)
 Definition some_b {A} (o : option A) : bool := match o with Some _ => true | None => false end.
 Lemma k_taxa_is_grouped_model a :
